@@ -864,3 +864,251 @@ func ruleLimitScale(c *Ctx) {
 	}
 	c.Floor("scaled writes of the VM gas limit", n, 1)
 }
+
+// ---------------------------------------------------------------------------
+// serctx-alias (C17, C01): SerializationContext.Serialize returns its own buffer, "only valid until the [next] call
+// to Serialize"; one context is shared by everything an execution does through its DAO. The bytes may be measured,
+// copied, written out or handed to a sink that copies (the stores clone on Put), but they must not be *kept*: wrapped
+// into a stack item, put into a struct, appended or returned to a caller that keeps them - the next serialisation in
+// the same execution would rewrite what the contract (or the record) holds.
+var serctxCopyingSinks = map[string]string{
+	"bytes.Clone":                            "copy",
+	"slices.Clone":                           "copy",
+	"builtin.len":                            "length only",
+	"pkg/core/dao.(*Simple).PutStorageItem":  "MemCachedStore.Put clones the value",
+	"pkg/core/storage.(*MemCachedStore).Put": "clones the value",
+	"pkg/io.(*BinWriter).WriteBytes":         "copies into the writer",
+	"pkg/io.(*BinWriter).WriteVarBytes":      "copies into the writer",
+	"pkg/core/state.NewContractInvocation":   "callers pass a clone (checked at the call site: the argument is bytes.Clone(...))",
+}
+
+var serctxKeepers = map[string]bool{
+	"pkg/vm/stackitem.NewByteArray": true, "pkg/vm/stackitem.NewBuffer": true, "pkg/vm/stackitem.Make": true, "builtin.append": true,
+}
+
+func ruleSerCtxAlias(c *Ctx) {
+	n := 0
+	for _, fd := range c.P.AllFuncDecls() {
+		if fd.Decl.Body == nil || !strings.HasPrefix(pkgRel(fd.Pkg.Types), "pkg/core") {
+			continue
+		}
+		f := c.P.NewFuncCFG(fd)
+		if f == nil {
+			continue
+		}
+		info := fd.Pkg.TypesInfo
+		for _, st := range f.CallSites("pkg/vm/stackitem.(*SerializationContext).Serialize") {
+			// the variable receiving the buffer
+			var obj types.Object
+			ast.Inspect(fd.Decl.Body, func(x ast.Node) bool {
+				if as, ok := x.(*ast.AssignStmt); ok && len(as.Rhs) == 1 && ast.Unparen(as.Rhs[0]) == ast.Expr(st.call) && len(as.Lhs) >= 1 {
+					if id, ok := as.Lhs[0].(*ast.Ident); ok {
+						obj = info.ObjectOf(id)
+					}
+				}
+				return true
+			})
+			n++
+			key := fmt.Sprintf("serctx-alias.%s#%d", FuncKey(fd.Obj), n)
+			if obj == nil {
+				c.Unclassified(key, c.P.Pos(st.call.Pos()), "the serialisation buffer is not bound to a variable")
+				continue
+			}
+			// position after which the variable holds a private copy (`data = bytes.Clone(data)`)
+			cloneFrom := token.Pos(-1)
+			ast.Inspect(fd.Decl.Body, func(x ast.Node) bool {
+				if as, ok := x.(*ast.AssignStmt); ok && len(as.Lhs) == 1 && len(as.Rhs) == 1 {
+					if id, ok := as.Lhs[0].(*ast.Ident); ok && info.ObjectOf(id) == obj {
+						if call, ok := ast.Unparen(as.Rhs[0]).(*ast.CallExpr); ok && as.Pos() > st.call.Pos() {
+							if cs := f.calleeSym(call); cs == "bytes.Clone" || cs == "slices.Clone" {
+								if cloneFrom < 0 || as.End() < cloneFrom {
+									cloneFrom = as.End()
+								}
+							}
+						}
+					}
+				}
+				return true
+			})
+			bad, unk := "", ""
+			var stack []ast.Node
+			ast.Inspect(fd.Decl.Body, func(x ast.Node) bool {
+				if x == nil {
+					stack = stack[:len(stack)-1]
+					return true
+				}
+				stack = append(stack, x)
+				id, ok := x.(*ast.Ident)
+				if !ok || info.ObjectOf(id) != obj || id.Pos() <= st.call.Pos() || (cloneFrom >= 0 && id.Pos() > cloneFrom) {
+					return true
+				}
+				if len(stack) < 2 {
+					return true
+				}
+				switch p := stack[len(stack)-2].(type) {
+				case *ast.CallExpr:
+					isArg := false
+					for _, a := range p.Args {
+						if a == ast.Expr(id) {
+							isArg = true
+						}
+					}
+					if !isArg {
+						return true
+					}
+					cs := f.calleeSym(p)
+					if tv, ok := info.Types[p.Fun]; ok && tv.IsType() {
+						bad = "converted and kept: " + types.ExprString(p)
+					} else if _, ok := serctxCopyingSinks[cs]; ok {
+						// fine
+					} else if serctxKeepers[cs] {
+						bad = "handed to " + shortSym(cs) + ", which keeps the slice"
+					} else {
+						unk = "passed to " + cs
+					}
+				case *ast.ReturnStmt:
+					unk = "returned to the caller"
+				case *ast.AssignStmt:
+					for i, r := range p.Rhs {
+						if r == ast.Expr(id) && i < len(p.Lhs) {
+							if _, isIdent := p.Lhs[i].(*ast.Ident); !isIdent {
+								bad = "stored into " + types.ExprString(p.Lhs[i])
+							}
+						}
+					}
+				case *ast.KeyValueExpr, *ast.CompositeLit:
+					bad = "placed into a composite value"
+				case *ast.BinaryExpr, *ast.IndexExpr, *ast.SliceExpr, *ast.IfStmt:
+					// compared / indexed / re-sliced: reads
+					if se, ok := p.(*ast.SliceExpr); ok && se.X == ast.Expr(id) {
+						unk = "re-sliced"
+					}
+				}
+				return true
+			})
+			switch {
+			case bad != "":
+				c.Fail(key, c.P.Pos(st.call.Pos()), fmt.Sprintf("%s keeps the buffer of the shared serialisation context (%s): the next Serialize of the same execution overwrites the bytes that were handed out", FuncKey(fd.Obj), bad))
+			case unk != "":
+				c.Unclassified(key, c.P.Pos(st.call.Pos()), "the buffer leaves the function ("+unk+"): not followed")
+			default:
+				c.OK(key, c.P.Pos(st.call.Pos()), "the serialisation buffer is only measured, copied or handed to copying sinks")
+			}
+		}
+	}
+	c.Floor("uses of the shared serialisation context", n, 6)
+}
+
+// ---------------------------------------------------------------------------
+// sticky-error (C17): io.BinReader carries the first decoding error in its Err field; every read after it is a no-op
+// and the caller looks at Err once at the end. A decoder that assigns the result of a validation or hashing call to
+// Err (`br.Err = t.isValid()`) replaces whatever is there - also with nil: truncated or oversized input that a
+// later field rejected is then accepted. Such an assignment is made only behind a test of the same Err field.
+func ruleStickyError(c *Ctx) {
+	n := 0
+	for _, fd := range c.P.AllFuncDecls() {
+		if fd.Decl.Body == nil || !strings.HasPrefix(pkgRel(fd.Pkg.Types), "pkg/") || pkgRel(fd.Pkg.Types) == "pkg/io" {
+			continue
+		}
+		f := c.P.NewFuncCFG(fd)
+		if f == nil {
+			continue
+		}
+		info := fd.Pkg.TypesInfo
+		for _, w := range f.WriteSites("pkg/io#Err") {
+			as, ok := w.node.(*ast.AssignStmt)
+			if !ok || len(as.Lhs) != 1 || len(as.Rhs) != 1 {
+				continue
+			}
+			se, ok := ast.Unparen(as.Lhs[0]).(*ast.SelectorExpr)
+			if !ok || !namedTypeIs(info.TypeOf(se.X), "pkg/io", "BinReader") {
+				continue
+			}
+			call, ok := ast.Unparen(as.Rhs[0]).(*ast.CallExpr)
+			if !ok {
+				continue // a named error value or nil literal: not a maybe-nil result
+			}
+			cs := f.calleeSym(call)
+			if cs == "errors.New" || cs == "fmt.Errorf" || cs == "" {
+				continue
+			}
+			n++
+			key := fmt.Sprintf("sticky-error.%s#%d", FuncKey(fd.Obj), n)
+			// the test has to be the last thing that happens to the reader before the assignment: either the assignment
+			// sits in the body of `if <reader>.Err == nil && ...` with no use of the reader in front of it, or the
+			// statement right before it is `if <reader>.Err != nil { return }`
+			rdr := types.ExprString(se.X)
+			usesReader := func(n ast.Node) bool {
+				found := false
+				ast.Inspect(n, func(y ast.Node) bool {
+					if e, ok := y.(ast.Expr); ok && types.ExprString(e) == rdr {
+						found = true
+					}
+					return !found
+				})
+				return found
+			}
+			errTest := func(cond ast.Expr, op token.Token) bool {
+				for _, at := range condAtoms(cond) {
+					if be, ok := ast.Unparen(at.e).(*ast.BinaryExpr); ok && be.Op == op {
+						if types.ExprString(ast.Unparen(be.X)) == rdr+".Err" && types.ExprString(ast.Unparen(be.Y)) == "nil" {
+							return true
+						}
+					}
+				}
+				return false
+			}
+			guarded := false
+			var path []ast.Node
+			ast.Inspect(fd.Decl.Body, func(y ast.Node) bool {
+				if y == nil {
+					path = path[:len(path)-1]
+					return true
+				}
+				path = append(path, y)
+				if y != ast.Node(as) {
+					return true
+				}
+				for k := len(path) - 2; k >= 1; k-- {
+					blk, ok := path[k].(*ast.BlockStmt)
+					if !ok {
+						continue
+					}
+					// statements of blk before the one leading to the assignment
+					idx := -1
+					for i, st := range blk.List {
+						if st == path[k+1] {
+							idx = i
+						}
+					}
+					clean := true
+					for i := idx - 1; i >= 0 && clean; i-- {
+						if is, ok := blk.List[i].(*ast.IfStmt); ok && is.Init == nil && errTest(is.Cond, token.NEQ) && leavesLoop(is.Body) {
+							guarded = true
+							break
+						}
+						if usesReader(blk.List[i]) {
+							clean = false
+						}
+					}
+					if guarded || !clean {
+						break
+					}
+					if is, ok := path[k-1].(*ast.IfStmt); ok && is.Body == blk {
+						if errTest(is.Cond, token.EQL) {
+							guarded = true
+						}
+						break
+					}
+				}
+				return true
+			})
+			if guarded {
+				c.OK(key, c.P.Pos(as.Pos()), "the result of "+shortSym(cs)+" replaces the reader's error only behind a test of that error")
+			} else {
+				c.Fail(key, c.P.Pos(as.Pos()), fmt.Sprintf("%s assigns the result of %s to the reader's Err without testing Err first: an earlier decoding error (truncated or oversized input) is replaced, by nil when the call succeeds, and the malformed value is accepted", FuncKey(fd.Obj), shortSym(cs)))
+			}
+		}
+	}
+	c.Floor("maybe-nil results assigned to a reader's error", n, 4)
+}
